@@ -12,6 +12,7 @@ mod c07;
 mod c09;
 mod c10;
 mod c11;
+mod c13;
 
 pub struct Rng(pub u64);
 impl Rng {
@@ -62,6 +63,8 @@ fn main() {
         "C06" => c06::search(&mut rng, budget, &mut fails),
         "C11" | "C12" => c11::search(&mut rng, budget, &mut fails),
         "C09" => c09::search(&mut rng, budget, &mut fails),
+        "C13" => c13::search(&mut rng, budget, &mut fails),
+        "C13-gap" => c13::search_gap(&mut rng, budget, &mut fails, 26 * 3600),
         "C10" => c10::search(&mut rng, budget, &mut fails),
         "C04" | "C03" => c04::search(&mut rng, budget, &mut fails),
         _ => {
